@@ -11,14 +11,18 @@ if [ "$REPO" != /repo ]; then export SIMPLC_REPO_WS="$REPO/compiler"; fi
 export SIMPLC_OUT_DIR="${SIMPLC_OUT_DIR:-/tmp/simplc-sensitivity-out}"
 mkdir -p "$SIMPLC_OUT_DIR"
 cd "$HERE"
+# keys: revert-<fix commit> = reverse patch of a fix; selfmade-* = a change written by the author of the
+# machinery to prove that a seam is live (not independent evidence, unlike /verif/seeded)
 declare -A EXPECT=(
+ [selfmade-decoded-text-cache]="C06 C13"
  [1ac9947]="C06 C03" [474d91c]="C06 C03" [b5b971c]="C12" [c217e1a]="C12" [201f5d4]="C12 C11"
  [3a03e34]="C11" [cbe05b4]="C06" [14b7e1d]="C06" [2fe554b]="C14" [ff78c38]="C15" [e11cc0a]="C15" [a7715b3]="C15" [f3e5ca9]="C15" [d78f1f5]="C15" [ddb7fb4]="C13"
 )
 fail=0
 for c in "${!EXPECT[@]}"; do
   if ! git -C "$REPO" diff --quiet; then echo "selftest: $REPO dirty" >&2; exit 2; fi
-  git -C "$REPO" apply "$HERE"/mutants/revert-$c.diff || { echo "selftest: revert-$c does not apply"; fail=1; continue; }
+  case "$c" in selfmade-*) f="$HERE/mutants/$c.diff";; *) f="$HERE/mutants/revert-$c.diff";; esac
+  git -C "$REPO" apply "$f" || { echo "selftest: $f does not apply"; fail=1; continue; }
   for p in ${EXPECT[$c]}; do
     out=$(./check $p quick 2>&1); code=$?
     if [ $code = 1 ]; then
